@@ -124,14 +124,18 @@ def _extract():
 
     # --- validator shape ----------------------------------------------------------------------
     vb = fn_body(src, "validate_program_name")
+    # the flag "the previous character was a separator" is recognised by its role, not by its name (a renamed local is
+    # the same code)
+    fm = re.search(r"let mut (\w+) = false;", vb)
+    flag = re.escape(fm.group(1)) if fm else "previous_separator"
     for pat, what in [
         (r"if name\.is_empty\(\)", "empty check"),
         (r"!first_char\.is_ascii_lowercase\(\)", "first char lowercase check"),
-        (r"let mut previous_separator = false;", "previous_separator init"),
-        (r"'a'\.\.='z' \| '0'\.\.='9' => previous_separator = false", "alnum arm"),
-        (r"'-' \| '_' => \{\s*if previous_separator \{", "separator arm"),
-        (r"previous_separator = true;", "separator arm sets flag"),
-        (r"if previous_separator \{\s*return Err\(invalid_name\(name, \"cannot end with", "trailing separator check"),
+        (r"let mut " + flag + r" = false;", "previous_separator init"),
+        (r"'a'\.\.='z' \| '0'\.\.='9' => " + flag + r" = false", "alnum arm"),
+        (r"'-' \| '_' => \{\s*if " + flag + r" \{", "separator arm"),
+        (flag + r" = true;", "separator arm sets flag"),
+        (r"if " + flag + r" \{\s*return Err\(invalid_name\(name, \"cannot end with", "trailing separator check"),
         (r"let module_name = name\.replace\('-', \"_\"\);\s*if is_rust_keyword\(&module_name\)", "keyword check"),
         (r"Ok\(name\.to_owned\(\)\)", "returns the name"),
     ]:
